@@ -6,7 +6,7 @@
    the deterministic scheduler (outcome = all threads finished) on every run of the check. *)
 From Coq Require Import Arith Lia List.
 From DC Require Import Disruptor.WaitSignal.
-From DC Require Disruptor.Pipeline Disruptor.Progress.
+From DC Require Disruptor.Pipeline Disruptor.Progress Disruptor.WaitProgress.
 
 Theorem C06_no_lost_wakeup_partial : forall need s0 s w,
   initial s0 -> reachable need s0 s -> (forall k, sp s k = SDone) ->
@@ -52,6 +52,15 @@ Print Assumptions C06_drain_possible.
 Print Assumptions C06_write_possible.
 Print Assumptions C06_join_possible.
 
+(* progress of the blocking wait strategy: from EVERY reachable state of the wait / signal protocol a waiter whose
+   condition holds can return, by genuine steps only - no spurious wake-up is needed, the notification that the
+   no-lost-wake-up invariant promises does arrive *)
+Theorem C06_blocking_waiter_can_return : forall need s0 s w,
+  initial s0 -> reachable need s0 s -> need w <= x s ->
+  exists s', WaitProgress.gsteps need s s' /\ wp s' w = WDone.
+Proof. exact WaitProgress.waiter_can_return. Qed.
+
 Print Assumptions C06_no_lost_wakeup_partial.
+Print Assumptions C06_blocking_waiter_can_return.
 Print Assumptions C06_wake_invariant.
 Print Assumptions C06_guard_is_exclusive.
